@@ -66,7 +66,7 @@ def expected_domains(nf, card, low, struct):
 def jobs(tier):
     b = BOUNDS[tier]
     out = []
-    for mode in ('default', 'values', 'freq', 'random', 'random-wide'):
+    for mode in ('default', 'values', 'freq', 'random', 'random-wide', 'random-upto0'):
         for rep in (False, True):
             for sz in range(1, b['feature'][0] + 1):
                 for cd in range(1, b['feature'][1] + 1):
@@ -206,6 +206,9 @@ def run_job(job):
                     p = [1.0 / card] * card
                     x = cc._generate_feature(size, vec=vec, ensure_rep=rep, p=p)
                     dom = set(vec)
+                elif mode == 'random-upto0':
+                    x = cc._generate_feature(size, cardinality=card, ensure_rep=rep, random_values=True, low=-card - low, high=0)      # the upper bound is 0
+                    dom = set(range(-card - low, 1))
                 elif mode == 'random-wide':
                     x = cc._generate_feature(size, cardinality=card, ensure_rep=rep, random_values=True, low=low, high=low + WIDE_SPAN)
                     dom = range(low, low + WIDE_SPAN + 1)
@@ -218,7 +221,7 @@ def run_job(job):
                 if not all(int(v) in dom for v in x):
                     probs.append(f'values {sorted(set(int(v) for v in x))} outside the declared domain {sorted(dom) if len(dom) < 50 else dom}')
                 used = set(int(v) for v in x)
-                if mode in ('random', 'random-wide'):
+                if mode in ('random', 'random-wide', 'random-upto0'):
                     n_dom = card
                     if rep and n_dom <= size and len(used) < n_dom:
                         probs.append(f'ensure_rep: only {len(used)} of the {n_dom} drawn values occur in {size} samples')
@@ -296,6 +299,11 @@ def replay(w):
                 vec = [100 + 3 * i for i in range(card)]
                 x = cc._generate_feature(size, vec=vec, ensure_rep=rep, p=([1.0 / card] * card if mode == 'freq' else None))
                 dom = set(vec)
+            elif mode == 'random-upto0':
+                x = cc._generate_feature(size, cardinality=card, ensure_rep=rep, random_values=True, low=-card - low, high=0)
+                dom = None
+                if any(not (-card - low <= int(v) <= 0) for v in x):
+                    return {'reproduced': True, 'signature': 'C19:feature-domain', 'what': f'seed {seed}: _generate_feature(random_values=True, low={-card - low}, high=0, cardinality={card}) -> {x.tolist()} outside [{-card - low}, 0]'}
             elif mode == 'random-wide':
                 x = cc._generate_feature(size, cardinality=card, ensure_rep=rep, random_values=True, low=low, high=low + WIDE_SPAN)
                 dom = None
